@@ -518,14 +518,28 @@ func (fr *frame) slice(x *ssa.Slice, st *State, reach string) {
 	if pt, ok := x.X.Type().Underlying().(*types.Pointer); ok {
 		// slicing a pointer to array: materialise the literal sequence
 		at := pt.Elem().Underlying().(*types.Array)
-		if x.Low != nil || x.High != nil {
-			ft.unsupported("partial slice of array in %s", fr.fn)
+		lo64, hi64 := int64(0), at.Len()
+		if x.Low != nil {
+			c, ok := x.Low.(*ssa.Const)
+			if !ok {
+				ft.unsupported("non-constant slice of array in %s", fr.fn)
+			} else {
+				lo64 = c.Int64()
+			}
+		}
+		if x.High != nil {
+			c, ok := x.High.(*ssa.Const)
+			if !ok {
+				ft.unsupported("non-constant slice of array in %s", fr.fn)
+			} else {
+				hi64 = c.Int64()
+			}
 		}
 		pl := fr.placeOf(base, pt.Elem())
 		arr := ft.load(pl, st)
 		ss := g.reg.SortOf(x.Type())
 		var elems []string
-		for i := int64(0); i < at.Len(); i++ {
+		for i := lo64; i < hi64; i++ {
 			elems = append(elems, fmt.Sprintf("(select %s %d)", arr, i))
 		}
 		c := ft.fresh("sl_"+x.Name(), ss)
